@@ -86,7 +86,13 @@ BIG == /\ st = "called" /\ R.kind = "big"
                             OkIncS(R.chOk), "F5_scalar_centre", R.chScalarCentre)))
        /\ st' = "returned" /\ UNCHANGED tid
 
-Next == LL \/ BIC \/ CH \/ FLOOR \/ BIG
+(* generic SPD fields whose determinant is a subnormal double or just outside the double range (observation O7) *)
+LLOBS == /\ st = "called" /\ R.kind = "llobs"
+         /\ Clause("C05", "log_density_exact_when_the_determinant_is_subnormal_or_out_of_range", OkIncS(R.ok))
+         /\ Clause("C03", "likelihood_finite_for_every_positive_definite_mrf_whatever_its_determinant", R.ok # "bad")
+         /\ st' = "returned" /\ UNCHANGED tid
+
+Next == LL \/ BIC \/ CH \/ FLOOR \/ BIG \/ LLOBS
 Spec == Init /\ [][Next]_vars
 Accept == (st = "returned") => TLCSet(1, TLCGet(1) \cup {tid})
 Post == PrintT(<<"ACCEPTED", TLCGet(1)>>)
